@@ -143,7 +143,7 @@ def main(prop, mod, tier, seed):
         if r.error:
             errors.append('%s: %s' % (u.name, r.error.strip().splitlines()[-1]))
             entry['error'] = r.error
-        if not r.obligations and not r.error:
+        if not r.obligations and not r.error and not r.unsupported:
             errors.append('%s generated no obligations' % u.name)
         if r.extra.get('bounded'):
             # bounded stand-in: reported separately, never counted among the discharged proof obligations
@@ -226,10 +226,10 @@ def main(prop, mod, tier, seed):
             kf_lines.append('note: known finding %s no longer reproduces (%s)' % (f['id'], still.get('observed', still.get('error', ''))))
     for ln in kf_lines:
         print(ln)
-    if errors:
+    if violations:
+        exit_code = 1          # a replayed (or counter-model backed) violation stands, whatever else could not be decided
+    elif errors:
         exit_code = 3
-    elif violations:
-        exit_code = 1
     elif undecided:
         exit_code = 2
     wall = time.time() - t0
